@@ -160,6 +160,19 @@ def unescGo (isAttr : Bool) : Option Str → Str → Option Str
 
 def unescape (isAttr : Bool) (s : Str) : Option Str := unescGo isAttr none s
 
+/-- References replaced and NOTHING else: no `Char` check, no normalisation.  The inverse the escaping layer
+alone has for EVERY string (also strings an XML 1.0 document cannot carry: C0 controls, U+FFFE/U+FFFF). -/
+def unescAnyGo : Option Str → Str → Option Str
+  | none, [] => some []
+  | some _, [] => none
+  | none, c :: cs =>
+      if c = '&' then unescAnyGo (some []) cs else (unescAnyGo none cs).map (c :: ·)
+  | some acc, c :: cs =>
+      if c = ';' then (decodeEntity acc).bind (fun ch => (unescAnyGo none cs).map (ch :: ·))
+      else unescAnyGo (some (acc ++ [c])) cs
+
+def unescAny (s : Str) : Option Str := unescAnyGo none s
+
 def unescAttrs : List (Str × Str) → Option (List (Str × Str))
   | [] => some []
   | (k, v) :: rest =>
@@ -295,6 +308,27 @@ def pageNodes (strip : Bool) (p : Page) : List Node :=
 def docSkeleton (strip : Bool) (ps : List Page) : Node :=
   .elem ['p','a','g','e','s'] [] (nl :: ps.flatMap (pageNodes strip))
 
+/-! ### the tree after `CONTROL.sub` on the strings `XMLConverter` strips (font name, glyph text, figure name,
+exported image name); the identity without strip_control -/
+
+mutual
+def stripItem (strip : Bool) : Item → Item
+  | .char f b cs nc sz t => .char (maybeStrip strip f) b cs nc sz (maybeStrip strip t)
+  | .anno t => .anno t
+  | .line lw b => .line lw b
+  | .rect lw b => .rect lw b
+  | .curve lw b pts => .curve lw b pts
+  | .image w h src => .image w h (src.map (maybeStrip strip))
+  | .figure n b kids => .figure (maybeStrip strip n) b (stripItemL strip kids)
+  | .textline b kids => .textline b (stripItemL strip kids)
+  | .textbox i b v kids => .textbox i b v (stripItemL strip kids)
+def stripItemL (strip : Bool) : List Item → List Item
+  | [] => []
+  | i :: is => stripItem strip i :: stripItemL strip is
+end
+
+def stripPage (strip : Bool) (p : Page) : Page := { p with kids := stripItemL strip p.kids }
+
 /-! ### plain text demanded by the property -/
 
 mutual
@@ -317,5 +351,41 @@ end
 def specTextPage (p : Page) : Str := specTextL p.kids ++ ['\x0c']
 
 def specText (ps : List Page) : Str := ps.flatMap specTextPage
+
+/-- the page header a converter constructed with `showpageno` puts before the text of a page -/
+def specPageHeader (showpageno : Bool) (p : Page) : Str :=
+  if showpageno then ['P', 'a', 'g', 'e', ' '] ++ p.pageid ++ ['\n'] else []
+
+/-- plain text demanded for every `showpageno` choice: per page the optional header, the in-order text, a form feed -/
+def specTextPn (showpageno : Bool) (ps : List Page) : Str :=
+  ps.flatMap (fun p => specPageHeader showpageno p ++ specTextPage p)
+
+/-! ### raw glyph mode (`laparams=None`): no layout analysis, hence no text boxes -/
+
+mutual
+/-- no `LTTextBox` anywhere below (what `laparams=None` produces: glyphs directly under pages / figures) -/
+def noBox : Item → Bool
+  | .textbox _ _ _ _ => false
+  | .figure _ _ kids => noBoxL kids
+  | .textline _ kids => noBoxL kids
+  | _ => true
+def noBoxL : List Item → Bool
+  | [] => true
+  | i :: is => noBox i && noBoxL is
+end
+
+mutual
+/-- the glyph (and LTAnno) texts in order, nothing else -/
+def glyphText : Item → Str
+  | .char _ _ _ _ _ text => text
+  | .anno text => text
+  | .figure _ _ kids => glyphTextL kids
+  | .textline _ kids => glyphTextL kids
+  | .textbox _ _ _ kids => glyphTextL kids
+  | _ => []
+def glyphTextL : List Item → Str
+  | [] => []
+  | i :: is => glyphText i ++ glyphTextL is
+end
 
 end PdfVerif.Xml
